@@ -4,7 +4,7 @@ package httpguts
 
 // White-box shims for the C55 harness (injected with -overlay; never committed).
 
-func VerifTrimOWS(x string) string        { return trimOWS(x) }
-func VerifTokenEqual(a, b string) bool    { return tokenEqual(a, b) }
-func VerifIsTokenTable(b byte) bool       { return isTokenTable[b] }
+func VerifTrimOWS(x string) string                   { return trimOWS(x) }
+func VerifTokenEqual(a, b string) bool               { return tokenEqual(a, b) }
+func VerifIsTokenTable(b byte) bool                  { return isTokenTable[b] }
 func VerifHeaderValueContainsToken(v, t string) bool { return headerValueContainsToken(v, t) }
